@@ -40,6 +40,15 @@ def run_blockwire(ctx, found_on_panic=True):
     ctx.coverage["traces_validated_against_impl"] = ctx.coverage.get("traces_validated_against_impl", 0) + summ.get("evaluations", 0)
     ctx.kernel_lemmas += len(kv)
     ctx.kernel_ok += len(kv) if not kbad else 0
+    # direct oracle (implementation only): a token the builders returned must be readable again
+    d = summ.get("builder_nesting_first_unreadable_depth")
+    if d is not None:
+        ctx.violation({"family": BLOCKWIRE_WHAT,
+                       "violated_clause": "a token built through the API (one fact whose term nests %s arrays) is refused by "
+                                          "Biscuit::from: the builders let out a block that prost cannot read back "
+                                          "(recursion budget); C02_block_nesting_premise_needed is the model-side statement" % d,
+                       "input": "Biscuit::builder().fact(deep(<%s nested arrays around 1>)).build(); to_vec(); Biscuit::from" % d},
+                      True)
     lines = case_lines(outdir, "BW")
     info = _info(outdir, "BW")
     for i in summ.get("panics", [])[:5]:
